@@ -15,8 +15,10 @@ import luqum.head_tail as HT
 import luqum.exceptions as X
 from ply.yacc import YaccProduction, YaccSymbol
 
-WS_STAR = z3.Star(ext._union(ext._range_re(a, b) for a, b in ext.category_ranges("space")))
-NUMERAL = z3.Plus(z3.Union(z3.Range(z3.StringVal("0"), z3.StringVal("9")), z3.Re(z3.StringVal("."))))
+from vfkit import relang as RL
+WS_STAR = RL.to_z3(RL.star(ext.class_rx("space")))
+WS_PLUS = RL.to_z3(RL.plus(ext.class_rx("space")))
+NUMERAL = ext.NUMERAL
 
 # typing invariant of the value stack: classes(N) for every non-terminal (checked per production: C01-G typing)
 _UNARY = ["Plus", "Prohibit", "Not", "Group", "Range", "To", "From", "SearchField", "Phrase", "Proximity",
